@@ -10,7 +10,7 @@ from ..findings import e1_known_sig, any_shared_pull, SHARED
 ID = "C05"
 LEVEL = "exploration"
 ENGINE = "E1"
-QUICK_RUNS = 1500
+QUICK_RUNS = 3000
 THOROUGH_RUNS = 100000
 QUICK_WALL = 100
 THOROUGH_WALL = 900
@@ -62,7 +62,10 @@ def generate(tape, tier="quick"):
         sc["perms"] = [[tape.shuffle(list(range(n))), tape.shuffle(list(range(m)))] for _ in range(5)]
         sc["listing"], sc["link_order"] = list(range(n)), list(range(m))
         return sc
-    sc = gen_e1(tape, tier, allow_delay_push=False, max_sim=4, pull_fanout=False, sorted_diamond=(2, 3), allow_adaptive=False)
+    sc = gen_e1(tape, tier, allow_delay_push=False, max_sim=4, pull_fanout=False, sorted_diamond=(2, 3), allow_adaptive=False,
+                # the real library components more often than elsewhere: how often their model callback is evaluated
+                # while connecting must not depend on the listing order
+                real_chance=(2, 3), cb_nopull_chance=(1, 2))
     comps, links = sc["components"], sc["links"]
     if tape.chance(1, 4):
         # lockstep: every time-stepped component gets the same start and the same constant step (the smallest
